@@ -143,7 +143,7 @@ def runFrameOp (op : String) (j : Json) : P (Json × Json) := do
     let subset ← optOf (listOf (listOf strOf)) (fldD j "subset" .null)
     let enc : Target → Json := fun t => match t with | .base => .str "base" | .nest n => Json.mkObj [("nest", .str n)]
     pure (resJson (enc <$> resolveDropnaTarget nested on subset), .null)
-  | "names.parse" | "names.getitem" | "names.setitem" => do
+  | "names.parse" | "names.getitem" | "names.setitem" | "names.known" => do
     let path ← strOf (← fld j "path")
     let pairsOf := fun (jj : Json) => listOf (fun p => do let a ← arrOf p; pure ((← strOf a[0]!).toList, (← strOf a[1]!).toList)) jj
     let cleanTable ← pairsOf (fldD j "clean" (.arr #[]))
@@ -159,6 +159,11 @@ def runFrameOp (op : String) (j : Json) : P (Json × Json) := do
         let a ← arrOf p
         pure ((← strOf a[0]!).toList, ← listOf (fun x => do pure (← strOf x).toList) a[1]!)) (← fld sj "nested")
       let S : Schema := { base := base, nested := nested }
+      if op == "names.known" then
+        -- `_is_known_column` / `_is_known_hierarchical_column` on the parsed components
+        let comps := parseComponents clean attr path.toList
+        return (Json.mkObj [("ok", Json.mkObj [("column", .bool (isKnownColumn S comps)),
+                                               ("hierarchical", .bool (isKnownHierarchical S comps))])], .null)
       let r := if op == "names.getitem" then getitemResolve clean attr S path.toList else setitemResolve clean attr S path.toList
       let enc : Resolved → Json := fun r => match r with
         | .column n => Json.mkObj [("column", jstr n)]
@@ -255,6 +260,19 @@ def runFrameOp (op : String) (j : Json) : P (Json × Json) := do
     let nested ← typedColsOfJson (← fld j "nested")
     let name ← strOf (← fld j "name")
     pure (resJson (frameToJson <$> NFrame.fromFlat index base nested name none), .null)
+  | "frame.fromLists" => do
+    let index ← listOf labelOfJson (← fld j "index")
+    let base ← typedColsOfJson (← fld j "base")
+    let lists ← listOf (fun p => do
+      let a ← arrOf p
+      pure (← strOf a[0]!, ← strOf a[1]!, ← listOf plistOfJson a[2]!)) (← fld j "lists")
+    let name ← strOf (← fld j "name")
+    pure (resJson (frameToJson <$> NFrame.fromLists index base lists name), .null)
+  | "frame.getField" => do
+    let F ← frameOfJson (← fld j "frame")
+    let nest ← strOf (← fld j "nest"); let field ← strOf (← fld j "field")
+    pure (resJson ((fun (r : List Label × List Cell) => Json.mkObj [("index", jList labelToJson r.1), ("vals", jList cellToJson r.2)])
+            <$> F.getField nest field), .null)
   | "frame.reduceCalls" => do
     let F ← frameOfJson (← fld j "frame")
     let cols ← listOf (fun p => do let a ← arrOf p; pure (← optOf strOf a[0]!, ← strOf a[1]!)) (← fld j "cols")
